@@ -71,4 +71,17 @@ RepTable(atoms) == [i \in DOMAIN atoms |-> Rep(atoms, i)]
 \* quotient of the particle graph: edges between different residues (symmetric); edges by index
 ResEdgesOf(rep, edges) ==
   Sym({<<rep[e[1]], rep[e[2]]>> : e \in {f \in Range(edges) : rep[f[1]] # rep[f[2]]}})
+
+(* ---- added for the file-level judges (C15 ElasticFiles): adjacency computed once, balls looked up ---- *)
+\* adjacency of a symmetric edge set as a function over the node set N
+AdjTable(N, E) == [n \in N |-> {e[2] : e \in {f \in E : f[1] = n}}]
+RECURSIVE ExpandT(_, _, _, _)
+ExpandT(adj, frontier, seen, k) ==
+  IF k <= 0 \/ frontier = {} THEN seen
+  ELSE LET nxt == (UNION {adj[n] : n \in frontier}) \ seen
+       IN ExpandT(adj, nxt, seen \cup nxt, k - 1)
+\* all nodes within k edges of a (a included); same set as Ball(E, a, k)
+BallT(adj, a, k) == ExpandT(adj, {a}, {a}, k)
+\* every coordinate of p and q differs by at most r (then D2(p, q) <= 3 r^2: no overflow for r <= 26000)
+NearBox(p, q, r) == Abs(p[1] - q[1]) <= r /\ Abs(p[2] - q[2]) <= r /\ Abs(p[3] - q[3]) <= r
 =============================================================================
